@@ -77,6 +77,10 @@ class Adapter(EnvAdapter):
                 # the penalty given as a Python int: rewards must stay float32
                 c("g5a2f1_t3_penint", 5, 2, 1, 2, 3, 3, 6, coop=False, pen=1, norm=False, probe_cap=12),
                 c("g6a1f2_t7", 6, 1, 2, 6, 7, 4, 11, coop=False, probe_cap=6),     # a single agent
+                # fewer food items than agents and high agent levels: the food level (up to the sum of three agent levels)
+                # is then the largest number an observation can hold
+                c("g8a3f1_lvl4_t3", 8, 3, 1, 8, 3, 10, 5, coop=True, lvl=4, probe_cap=12),
+                c("g8a2f1_lvl6_grid_t2", 8, 2, 1, 8, 2, 8, 4, coop=True, lvl=6, grid=True, probe_cap=8),
                 inj("inj3_vec", 40, grid=False),
                 inj("inj3_grid", 20, grid=True, pen=0.5),
             ]
@@ -108,6 +112,9 @@ class Adapter(EnvAdapter):
         out.append(c("g6a1f2_t7", 6, 1, 2, 6, 7, 10, 11, coop=False))
         out.append(c("g5a1f1_grid_t3", 5, 1, 1, 2, 3, 8, 7, coop=False, grid=True, pen=0.5))
         out.append(c("g8a2f4_lvl4_t7", 8, 2, 4, 3, 7, 8, 11, coop=False, lvl=4, probe_every=2, probe_cap=36))
+        out.append(c("g8a3f1_lvl4_t3", 8, 3, 1, 8, 3, 40, 5, coop=True, lvl=4, probe_cap=12))
+        out.append(c("g8a2f1_lvl6_grid_t2", 8, 2, 1, 8, 2, 30, 4, coop=True, lvl=6, grid=True, probe_cap=8))
+        out.append(c("g9a4f2_lvl5_t3", 9, 4, 2, 4, 3, 20, 5, coop=True, lvl=5, probe_cap=16))
         out.append(c("g6a2f1_t100_full", 6, 2, 1, 6, 100, 3, 104, coop=True, probe_every=10, probe_cap=20, policies=["random", "idle"]))
         out.append(inj("inj3_vec", 900, grid=False))
         out.append(inj("inj3_grid", 600, grid=True, pen=0.5))
